@@ -404,11 +404,11 @@ theorem onRun_rel (Q : Bytes → Bool) (k rest c a o out tmo left) (s' : Store) 
     (hS : SAgree Q c.dev.args s') (hQ : QOn Q c.dev) (ha : ActOK Q a) (hrest : ActsOK Q rest) :
     PARel Q (onRun k rest c a o out tmo left) (onRun k rest (c.withArgs s') a o out tmo left) := by
   rw [onRun_eq, onRun_eq]
-  have hil := innerLoop_rel Q c.env.now 64 { c.dev with wake := none } a o [] s' hS hQ ha
+  have hil := innerLoop_rel Q c.env.now (loopBound a) { c.dev with wake := none } a o [] s' hS hQ ha
   obtain ⟨⟨t', h1, h2⟩, h3⟩ := hil
-  have hp := innerLoop_plugs c.env.now 64 { c.dev with wake := none } a o []
-  have e : innerLoop (c.withArgs s').env.now 64 { (c.withArgs s').dev with wake := none } a o []
-      = (innerLoop c.env.now 64 { c.dev with wake := none } a o []).withArgs t' := h1
+  have hp := innerLoop_plugs c.env.now (loopBound a) { c.dev with wake := none } a o []
+  have e : innerLoop (c.withArgs s').env.now (loopBound a) { (c.withArgs s').dev with wake := none } a o []
+      = (innerLoop c.env.now (loopBound a) { c.dev with wake := none } a o []).withArgs t' := h1
   rw [e]
   exact onRunTail_rel Q k rest c _ out tmo left s' t' hk h2 (hQ.congr hp) h3 hrest
 
